@@ -54,6 +54,32 @@ class Prop(common.PropertyCheck):
                 spec['version'] = ['FCS3.0', 'FCS3.1'][i % 2]
                 spec['placement'] = 'text'
             yield {'k': 'file', 'spec': spec}
+        # DATA segments that begin or end beyond byte 10,000,000: the HEADER's 8-character offset fields are then completely filled
+        # (no blank between neighbouring fields); oracle only (the files are too large to be shipped to the model)
+        for i, (ver, pad, too) in enumerate((('FCS2.0', 10000050, True), ('FCS3.0', 10000050, False), ('FCS2.0', 9999600, True), ('FCS3.1', 12345678, True))):
+            ws = [[16, 16], [8, 24], [32, 32], [16, 16]][i]
+            lay0 = fcswriter.build({'version': ver, 'widths': ws, 'ranges': [256] * 2, 'events': [], 'tot': 0})[1]
+            if i == 2:
+                pad = 9999996 - (lay0['segs']['T'][1] + 1)      # DATA begins at 9,999,996 (7 digits) and ends beyond 10,000,000
+            N = 4
+            ev = [list(c) for c in zip(*[fcsgen.gen_values(rng, w, N) for w in ws])]
+            yield {'k': 'file', 'far': True, 'spec': {'version': ver, 'delim': '/', 'datatype': 'F' if i == 2 else 'I', 'byteord': '1,2,3,4', 'widths': ws,
+                                                      'ranges': [1 << w for w in ws] if i != 2 else [1024, 1024], 'events': ev, 'placement': 'header', 'text_offsets_too': too,
+                                                      'end_conv': 'last', 'pad_text': 0, 'pad_data': pad, 'pad_after': 0, 'order': 'TDA'}}
+        # FCS 3.x files whose TEXT carries stale DATA offsets (same extent, shifted by one byte) next to correct, non-zero HEADER offsets:
+        # the HEADER wins (`dataOffsets_header_priority`), so the recorded events come back
+        for i in range(self.budget(24, 240)):
+            spec = fcsgen.gen_spec(rng, family=fcsgen.FAMILIES[i % 7])
+            if not spec['events'] or spec.get('malformed'):
+                continue
+            spec.update(version=['FCS3.0', 'FCS3.1'][i % 2], placement='header', text_offsets_too=True, pad_after=max(2, spec.get('pad_after', 0)))
+            spec.pop('offset_style', None)
+            lay = fcswriter.build(spec)[1]['header']
+            if not (lay['data_begin'] and lay['data_end']) or lay['data_end'] >= 10 ** 8:
+                continue
+            sh = 1 if i % 3 else -1
+            spec['overrides'] = dict(spec.get('overrides') or {}, **{'$BEGINDATA': fcswriter.off(lay['data_begin'] + sh), '$ENDDATA': fcswriter.off(lay['data_end'] + sh)})
+            yield {'k': 'file', 'stale_text_offsets': True, 'spec': spec}
         if self.tier == 'thorough':
             # all width vectors for D <= 3 (8 + 64 + 512) x endianness x end convention x placement
             for D in (1, 2, 3):
@@ -152,7 +178,13 @@ class Prop(common.PropertyCheck):
             res['file'] = list(data)
             return res
         res = fcsgen.load_bytes(data)
-        res['file'] = list(data)
+        if case.get('far'):
+            self.bump('far-data-segment')
+            h = layout['header']
+            if max(h['data_begin'], h['data_end']) < 10000000:
+                res = {'err': 'Harness', 'msg': 'far case does not reach byte 10,000,000'}
+        else:
+            res['file'] = list(data)
         return res
 
     def post(self):
@@ -181,7 +213,7 @@ class Prop(common.PropertyCheck):
                 return 'unsupported layout (%s) refused with %s (%s) instead of NotImplementedError' % (mal, impl['err'], impl.get('msg'))
             return None
         self.bump('datatype:' + spec['datatype'])
-        self.bump('placement:' + spec['placement'])
+        self.bump('placement:' + spec['placement'] + ('+stale-text-offsets' if case.get('stale_text_offsets') else ''))
         self.bump('end:' + spec['end_conv'])
         if 'err' in impl:
             return 'supported file refused: %s %s' % (impl['err'], impl.get('msg'))
@@ -207,7 +239,7 @@ class Prop(common.PropertyCheck):
         return None
 
     def model_request(self, case, impl):
-        if case['k'] in ('reload', 'big'):
+        if case['k'] in ('reload', 'big') or case.get('far'):
             return None
         s = case['spec']
         reqs = [{'op': 'load', 'file': impl['file']}]
